@@ -94,6 +94,24 @@ CLAIMED = {
             "Sequential dispatch (concurrency is C14); in-process Worker with a stand-in manager; unregistered "
             "pairs and non-Exception BaseExceptions are outside the statement.",
             "DESIGN.md 4/C13"),
+    "C15": ("HIST", "model_checking",
+            "exhaustive exploration of creation histories x the answer tree of the random source on the real constructors",
+            "All creation histories of length <= 3/4 over 6 creation kinds x every os.urandom answer sequence over a "
+            "3-symbol alphabet (lazy branching at every draw, <= 8/10 draws): auto-header requests pairwise distinct "
+            "in Hop-by-Hop and End-to-End, explicit-header requests and answers consume no draw, grow no registry and "
+            "keep their identifiers.",
+            "os.urandom substituted as a module global of bromelia.base; data-independence argument for 3 symbols; "
+            "sequential creations only (the concurrent clause needs the schedule explorer and is not yet decided).",
+            "DESIGN.md 4/C15"),
+    "C16": ("HIST", "model_checking",
+            "explicit-state breadth-first search over generation histories on the real Session-Id generator with a virtual clock",
+            "BFS over histories of <= 7 (quick) / <= 9 (thorough) operations from a 12-operation alphabet (Session-Id "
+            "AVPs for two identities, typed messages, bulk origin updates keeping/switching identity, explicit "
+            "session_id updates, Acct-Multi-Session-Id, bytes pass-through, clock +1 s): all generated ids pairwise "
+            "distinct, RFC 6733 grammar, identity prefix, bytes unchanged.",
+            "datetime.utcnow substituted in bromelia._internal_utils; depth-bounded (the counter makes the space "
+            "infinite); single-threaded generation.",
+            "DESIGN.md 4/C16"),
     "C17": ("ENUM", "exploration",
             "bounded-exhaustive enumeration of the real predicates against n // 1000",
             "Every code 0..65535 plus 32-bit boundaries and all library constants (thorough: plus a "
